@@ -102,7 +102,8 @@ def parseEv : List String → Option Ev
 def cfg : Cfg :=
   { fixed := LinVerif.Generated.C08.aheadFixed
     mfail := LinVerif.Generated.C08.mismatchSetsFailure
-    wake := LinVerif.Generated.C08.wakeSendBlocking }
+    wake := LinVerif.Generated.C08.wakeSendBlocking
+    tok := LinVerif.Generated.C08.suspendChanBuffered }
 
 def step (s : St) (ws : List String) : St × String :=
   match ws with
